@@ -13,6 +13,12 @@ impl StateMachine<'_> {
         if !self.test_submodule_log() {
             return Ok(false);
         }
+        // The file section before a submodule log may still be waiting for its header (mode
+        // change only, empty or binary file: no `---`/`+++` lines). Write it now, as at a `diff`
+        // line; otherwise the pending mode change would be shown on the submodule's header and
+        // the file's own header would come after the log, or not at all.
+        self.painter.paint_buffered_minus_and_plus_lines();
+        self.handle_pending_line_with_diff_name()?;
         self.handle_additional_cases(State::SubmoduleLog)
     }
 
